@@ -265,11 +265,12 @@ _UNARY = ["sqrt", "abs", "absolute", "exp", "log", "sin", "cos", "tan", "round",
 
 def _unary(interp, name, args, kw, st, node):
     x = arrv(args[0])
-    src = merged_leading(interp, x) if (len(args) == 1 and not kw) else None
+    src = merged_leading(interp, x) if (len(args) == 1 and not [k for k in kw if k != "out"]) else None
     if src is not None:
         # elementwise maps commute with merging the leading axes
         inner = _unary(interp, name, [src], {}, st, node)
-        return reshape_to(interp, inner, [A.int_of_dim(d) for d in x.shape], st, node)
+        res_ = reshape_to(interp, inner, [A.int_of_dim(d) for d in x.shape], st, node)
+        return _handle_out(interp, res_, kw.get("out"), st, node) if kw.get("out") is not None else res_
     base = name.rsplit(".", 1)[1]
     base = {"absolute": "abs", "around": "round", "fabs": "abs", "rint": "round"}.get(base, base)
     if x.has_const and isinstance(x.const, (int, float)) and base == "sqrt" and x.const >= 0:
@@ -869,6 +870,9 @@ def np_where(interp, name, args, kw, st, node):
         items = [fresh_arr(T("where", x.term, const(i)) if rank > 1 else T("nonzero1", x.term), (Dim.unknown("where"),), x.labels, "int") for i in range(rank)]
         return interp.mk_tuple(items)
     c, a, b = [arrv(x) for x in args[:3]]
+    if args[2].has_const and isinstance(args[2].const, (int, float)) and not isinstance(args[2].const, bool) and args[2].const == 0 and c.extra == "bool" and a.extra != "bool" and shape(a) not in (None, ()):
+        # where(m, x, 0) keeps x where the mask holds and is zero elsewhere: the product of x with the 0/1 mask
+        return A.binop(interp, "mul", a, c, st, node)
     sh = A.broadcast(interp, A.broadcast(interp, shape(c), shape(a), st, node, what="where"), shape(b), st, node, what="where")
     return fresh_arr(T("where3", c.term, a.term, b.term), sh, _L(c, a, b))
 
@@ -1327,6 +1331,11 @@ def sp_svds(interp, name, args, kw, st, node):
     U = fresh_arr(T("svds_U", x.term, kt, extra), (r, k), labels) if which in (True, "u") else vconst(None)
     S = fresh_arr(T("svds_S", x.term, kt, extra), (k,), labels)
     Vt = fresh_arr(T("svds_Vt", x.term, kt, extra), (k, c), labels) if which in (True, "vh") else vconst(None)
+    v0_ = kw.get("v0")
+    v0sh = shape(v0_) if v0_ is not None and v0_.kind == "arr" else None
+    if v0sh is not None and len(v0sh) == 1 and r is not None and c is not None and r.known() and c.known():
+        if A.dims_conflict(interp, v0sh[0], interp.order.dmin(r, c)):
+            interp.event("shape-conflict", node, st, what="svds: the start vector v0 must have min(A.shape) entries", a=(v0sh[0],), b=(r, c))
     interp.event("rng-sink", node, st, fn="svds", seed=kw.get("random_state"), v0=kw.get("v0"))
     return interp.mk_tuple([U, S, Vt])
 
@@ -1434,7 +1443,11 @@ def np_slogdet(interp, name, args, kw, st, node):
 
 @reg("scipy.linalg.orthogonal_procrustes")
 def sp_procrustes(interp, name, args, kw, st, node):
-    a, b = arrv(args[0]), arrv(args[1])
+    pos = list(args)
+    for key in ("A", "B")[len(pos):]:
+        if key in kw:
+            pos.append(kw.pop(key))
+    a, b = arrv(pos[0]), arrv(pos[1])
     sa, sb = shape(a), shape(b)
     sh = None
     if sa is not None and sb is not None and len(sa) == 2 and len(sb) == 2:
@@ -1718,7 +1731,12 @@ def call_external(interp, qual, args, kw, st, node):
     f = NP.get(qual)
     if f is not None:
         try:
+            ev0_ = len(interp.events)
             res = f(interp, qual, args, kw, st, node)
+            out_ = kw.get("out")
+            if out_ is not None and out_.kind == "arr" and isinstance(res, V) and res.kind == "arr" and not any(e_["kind"] == "mutate" and e_.get("how") == "out=" for e_ in interp.events[ev0_:]):
+                # out=buffer: the result is written into the caller's buffer, whatever the function
+                res = _handle_out(interp, res, out_, st, node)
             consumed = CONSUMED_KW.get(qual)
             if consumed is not None:
                 extra = {k: v for k, v in kw.items() if k not in consumed and not (v.kind == "none")}
@@ -1887,6 +1905,14 @@ def attribute(interp, base, name, st, node):
             return x
         if name == "dtype":
             return V("unk", T("dtype", x.term), orig=x.orig)
+        if name == "flat" and x.kind == "arr":
+            # a flat view of the same storage: writing through it writes the array
+            tot = None
+            if sh is not None:
+                tot = Dim(1)
+                for d in sh:
+                    tot = tot.mul(d)
+            return V("arr", T("ravel", x.term), shape=(tot,) if tot is not None else None, orig=x.orig, labels=x.labels, loc=x.loc if x.loc is not None else fresh_id(), extra=x.extra if isinstance(x.extra, str) else None)
         if name in ARRAY_METHODS:
             return V("func", T("method", x.term, name), func=("bound", _array_method(x, name), name))
     if base.kind in ("list",):
@@ -1931,11 +1957,11 @@ def _array_method(x, name):
             if not isinstance(tag, str):
                 tag = None
             cp = kw.get("copy")
-            if cp is not None and cp.has_const and cp.const is False and tag is None:
+            dtv_ = args[0] if args else kw.get("dtype")
+            if cp is not None and cp.has_const and cp.const is False and tag is None and not (dtv_ is not None and isinstance(dtv_.term, Term) and dtv_.term.op == "dtype"):
                 return x
             cur = x.extra if isinstance(x.extra, str) else None
             term = x.term
-            dtv_ = args[0] if args else kw.get("dtype")
             if tag is None and dtv_ is not None and isinstance(dtv_.term, Term) and dtv_.term.op == "dtype":
                 # astype(A.dtype): harmless when A is itself computed in floating point; when A is (a selection of)
                 # raw caller data and the value is computed, an integer input truncates it
